@@ -5,20 +5,59 @@ import (
 	"encoding/json"
 	"fmt"
 	"os"
+	"runtime"
 	"runtime/debug"
 	"strings"
+	"sync/atomic"
+	"syscall"
+	"time"
 )
+
+// ExitCPULimit is the exit status of a worker whose current case burnt its
+// whole CPU allowance (a busy loop: the case does not terminate).
+const ExitCPULimit = 97
+
+func processCPU() time.Duration {
+	var ru syscall.Rusage
+	if syscall.Getrusage(syscall.RUSAGE_SELF, &ru) != nil {
+		return 0
+	}
+	return time.Duration(ru.Utime.Nano() + ru.Stime.Nano())
+}
+
+// cpuWatch ends the process when the case that is running has used more than
+// limit of CPU time since it started. The goroutine dump goes to stderr (the
+// batch log) so that the supervisor can name the function that is spinning.
+func cpuWatch(limit time.Duration, caseStart *int64, out string) {
+	for {
+		time.Sleep(250 * time.Millisecond)
+		start := time.Duration(atomic.LoadInt64(caseStart))
+		if start < 0 {
+			continue
+		}
+		if used := processCPU() - start; used > limit {
+			buf := make([]byte, 1<<22)
+			n := runtime.Stack(buf, true)
+			fmt.Fprintf(os.Stderr, "\nCPU-LIMIT: the running case used %.0fs of CPU (allowance %.0fs); goroutines:\n%s\n", used.Seconds(), limit.Seconds(), buf[:n])
+			if out != "" {
+				os.WriteFile(out+".cpulimit", []byte(fmt.Sprintf("%.0f", used.Seconds())), 0o644)
+			}
+			os.Exit(ExitCPULimit)
+		}
+	}
+}
 
 // WorkerArgs describes one batch.
 type WorkerArgs struct {
-	Prop    string
-	Tier    string
-	Seed    uint64
-	From    int
-	To      int // exclusive
-	Skip    map[int]bool
-	Out     string // path prefix for marker/result/hashes
-	Verbose bool
+	Prop     string
+	Tier     string
+	Seed     uint64
+	From     int
+	To       int // exclusive
+	Skip     map[int]bool
+	Out      string // path prefix for marker/result/hashes
+	Verbose  bool
+	CPULimit time.Duration // per case, 0 = none
 }
 
 func CaseRand(seed uint64, prop string, i int) *Rand {
@@ -46,10 +85,15 @@ func RunWorker(a WorkerArgs) int {
 		defer marker.Close()
 	}
 	var buf [8]byte
+	caseStart := int64(-1)
+	if a.CPULimit > 0 {
+		go cpuWatch(a.CPULimit, &caseStart, a.Out)
+	}
 	for i := a.From; i < a.To; i++ {
 		if a.Skip[i] {
 			continue
 		}
+		atomic.StoreInt64(&caseStart, int64(processCPU()))
 		if marker != nil {
 			binary.LittleEndian.PutUint64(buf[:], uint64(i)+1)
 			marker.WriteAt(buf[:], 0)
@@ -57,6 +101,7 @@ func RunWorker(a WorkerArgs) int {
 		c := &Ctx{Prop: p, Tier: a.Tier, Seed: a.Seed, Case: i, R: CaseRand(a.Seed, a.Prop, i), Verbose: a.Verbose, agg: agg}
 		runCase(p, c, i)
 	}
+	atomic.StoreInt64(&caseStart, -1)
 	if marker != nil {
 		binary.LittleEndian.PutUint64(buf[:], 0)
 		marker.WriteAt(buf[:], 0)
